@@ -185,11 +185,20 @@ def given_members_returned(ctx, jwk, extra):
         members = list(src.items())
         ctx.rng.shuffle(members)
         src = dict(members)
-        k = call(j.JWKRegistry.import_key, copy.deepcopy(src))
+        handed = copy.deepcopy(src)
+        k = call(j.JWKRegistry.import_key, handed)
         case = {"jwk": src}
         if not k.ok:
             ctx.violation(f"import-fails:{k.key}", f"import of a well-formed JWK raised {k.exc!r}", case)
             continue
+        # the dict handed over stays the caller's: it is reused for the next key, emptied, edited - the imported key is not affected
+        for m in list(handed):
+            if m in ("k", "x", "y", "n", "e", "d", "p", "q", "dp", "dq", "qi"):
+                handed[m] = "AAAA"
+        handed["kid"] = "the-callers-next-key"
+        handed.pop("use", None)
+        handed["alg"] = "XX"
+        ctx.count("caller_dict_scribbled")
         out = call(k.value.as_dict)
         ctx.count("jwk_identity")
         ctx.nontrivial(("identity", src))
@@ -304,6 +313,29 @@ def malformed(ctx, jwk, rng):
 OPEN_CLASSES = ("retyped-key_ops-str",)
 
 
+def import_order_cases(ctx):
+    """every curve and key type is importable, generatable and exportable whichever joserfc module a process imports first"""
+    from .. import importorder as IO
+    mats = {"oct": gen.new_oct(256), "RSA": gen.new_rsa(2048)}
+    for c in gen.EC_CURVES:
+        mats[c] = gen.new_ec(c)
+    for c in gen.OKP_CURVES:
+        mats[c] = gen.new_okp(c)
+    items = []
+    for name in mats:
+        items.append((f"import:{name}", f"from joserfc.jwk import JWKRegistry\nk = JWKRegistry.import_key(dict(M['jwks'][{name!r}]))\n"
+                                       f"out = [k.thumbprint(), sorted(k.as_dict(private=False)), k.as_dict() == M['jwks'][{name!r}]]"))
+        if name in gen.EC_CURVES:
+            items.append((f"generate:{name}", f"from joserfc.jwk import ECKey\nk = ECKey.generate_key({name!r})\nout = [k.curve_name, sorted(k.as_dict())]"))
+            items.append((f"pem:{name}", f"from joserfc.jwk import ECKey\nk = ECKey.import_key(M['pems'][{name!r}])\nout = k.as_dict(private=False)"))
+        if name in gen.OKP_CURVES:
+            items.append((f"generate:{name}", f"from joserfc.jwk import OKPKey\nk = OKPKey.generate_key({name!r})\nout = sorted(k.as_dict())"))
+    material = {"jwks": mats, "pems": {c: gen.to_pem(mats[c]).decode() for c in gen.EC_CURVES}}
+    res = IO.run_orders(items, material)
+    ctx.count("import_orders_run", len(res))
+    IO.compare(ctx, res, "import-order-dependence", "key import / generation / export")
+
+
 def check_malformed(ctx, jwk, rng):
     j = J.load()
     for name, d in malformed(ctx, jwk, rng):
@@ -327,6 +359,8 @@ def check_malformed(ctx, jwk, rng):
 def run_shard(ctx):
     J.load()
     rng = ctx.rng
+    if ctx.shard == 4:
+        import_order_cases(ctx)
     kinds = list(K.KINDS)
     if ctx.tier == "thorough":
         kinds += ["RSA:3072"] + (["RSA:4096"] if ctx.shard == 0 else [])
